@@ -14,9 +14,50 @@ Open Scope string_scope.
 (* dx dy dz (physical, `_partial_derivatives`) and dx1 dx2 dx3 (`_logical_partial_derivatives`) *)
 Inductive dop := Dx | Dy | Dz | D1 | D2 | D3.
 
-(* what a chain of derivatives is applied to: a ScalarFunction (by name) or the component
-   u[i] of a VectorFunction (IndexedVectorFunction: name of the base + index) *)
-Inductive fatom := FScal (n : string) | FComp (n : string) (i : nat).
+(* A Mapping object as SymbolicExpr sees it: its name and the side flag that InterfaceMapping sets on the two
+   copies it keeps (mapping.is_minus / mapping.is_plus), or an InterfaceMapping (name 'minus|plus'). *)
+Inductive mside := SNone | SMinus | SPlus.
+Inductive mapping :=
+| MPlain (n : string) (s : mside)
+| MIface (a b : string).
+
+(* what a chain of derivatives is applied to:
+     a ScalarFunction (by name),
+     the component u[i] of a VectorFunction (IndexedVectorFunction: name of the base + index),
+     one of these restricted to a side of an interface (MinusInterfaceOperator / PlusInterfaceOperator),
+     the component M[i] of a Mapping (sympy Indexed with a Mapping base) *)
+Inductive fatom :=
+| FScal (n : string)
+| FComp (n : string) (i : nat)
+| FSide (plus : bool) (a : fatom)
+| FMap (m : mapping) (i : nat).
+
+(* geometry atoms that are translated to a Symbol by name *)
+Inductive gatom :=
+| GMap (m : mapping)                  (* a Mapping object itself *)
+| GWvol (m : mapping)                 (* SymbolicWeightedVolume(mapping) *)
+| GDet (jac : bool) (m : mapping).    (* SymbolicDeterminant(mapping) / SymbolicDeterminant(mapping.jacobian) *)
+
+(* the two exceptions SymbolicExpr.eval raises itself *)
+Inductive errk := EValue | ENotImpl.  (* ValueError('Wrong index') / NotImplementedError('Cannot translate to Sympy') *)
+Inductive res (A : Type) := Ok (a : A) | Err (k : errk).
+Arguments Ok {A} a.
+Arguments Err {A} k.
+Definition rbind {A B} (r : res A) (f : A -> res B) : res B := match r with Ok a => f a | Err k => Err k end.
+Definition rmap {A B} (f : A -> B) (r : res A) : res B := match r with Ok a => Ok (f a) | Err k => Err k end.
+Section MapM.
+  Context {A B : Type}.
+  Variable f : A -> res B.
+  (* [f(a) for a in l]: left to right, the first exception wins *)
+  Fixpoint mapM (l : list A) : res (list B) :=
+    match l with
+    | [] => Ok []
+    | x :: r => match f x with
+                | Err k => Err k
+                | Ok y => match mapM r with Err k => Err k | Ok ys => Ok (y :: ys) end
+                end
+    end.
+End MapM.
 
 (* the optional argument F of get_max_*partial_derivatives: a function atom, or a VectorFunction *)
 Inductive query := QAtom (a : fatom) | QVec (n : string).
@@ -34,7 +75,16 @@ Inductive expr :=
 | Fn (f : string) (l : list expr)  (* sympy Function application: sin, cos, exp, log, Abs, ... *)
 | Tup (l : list expr)              (* sympy Tuple *)
 | Seq (l : list expr)              (* python list / tuple *)
-| Mat (imm : bool) (rows : list (list expr)).   (* Matrix / ImmutableDenseMatrix *)
+| Mat (imm : bool) (rows : list (list expr))    (* Matrix / ImmutableDenseMatrix *)
+| Side (plus : bool) (e : expr)    (* Minus/PlusInterfaceOperator around something that is not a function atom *)
+| Geo (g : gatom)                  (* Mapping, SymbolicWeightedVolume, SymbolicDeterminant *)
+| IBase (s : string)               (* sympy IndexedBase (also NormalVector): passed through *)
+| IdxS (s : string)                (* sympy Idx: passed through *)
+| ImI                              (* ImaginaryUnit: passed through *)
+| PIdx (b i : string)              (* sympy Indexed whose base is neither a Mapping nor a VectorFunction: A[i], n[0] *)
+| PB (f : string) (vec : bool) (e : expr)   (* PullBack(f) of the scalar / vector function f; e = its .expr *)
+| Opaque (basic : bool).           (* anything else; basic = it is a sympy Basic (Boolean, Derivative, Domain, ...)
+                                      and not a bare python object (str, None) *)
 
 Definition chain := (list dop * fatom)%type.
 
@@ -45,10 +95,20 @@ Definition dop_eqb (a b : dop) : bool :=
   | Dx, Dx | Dy, Dy | Dz, Dz | D1, D1 | D2, D2 | D3, D3 => true
   | _, _ => false
   end.
-Definition fatom_eqb (a b : fatom) : bool :=
+Definition mside_eqb (a b : mside) : bool :=
+  match a, b with SNone, SNone | SMinus, SMinus | SPlus, SPlus => true | _, _ => false end.
+Definition mapping_eqb (a b : mapping) : bool :=
+  match a, b with
+  | MPlain n s, MPlain m t => String.eqb n m && mside_eqb s t
+  | MIface a1 b1, MIface a2 b2 => String.eqb a1 a2 && String.eqb b1 b2
+  | _, _ => false
+  end.
+Fixpoint fatom_eqb (a b : fatom) : bool :=
   match a, b with
   | FScal n, FScal m => String.eqb n m
   | FComp n i, FComp m j => String.eqb n m && Nat.eqb i j
+  | FSide p x, FSide q y => Bool.eqb p q && fatom_eqb x y
+  | FMap m i, FMap n j => mapping_eqb m n && Nat.eqb i j
   | _, _ => false
   end.
 
@@ -82,11 +142,35 @@ Definition with_code (name : string) (code : option string) : string :=
   | Some c => if String.eqb c "" then name else name ++ "_" ++ c
   end.
 
-(* arms `isinstance(expr, (ScalarFunction, VectorFunction))` and `isinstance(expr, Indexed)` *)
-Definition atom_name (a : fatom) (code : option string) : string :=
+(* Mapping.name; for an InterfaceMapping '{}|{}'.format(minus.name, plus.name) *)
+Definition map_name (m : mapping) : string :=
+  match m with MPlain n _ => n | MIface a b => a ++ "|" ++ b end.
+(* base.is_plus (None / False are falsy) *)
+Definition map_is_plus (m : mapping) : bool := match m with MPlain _ SPlus => true | _ => false end.
+(* if isinstance(mapping, InterfaceMapping): mapping = mapping.minus *)
+Definition map_minus (m : mapping) : mapping := match m with MIface a _ => MPlain a SMinus | _ => m end.
+
+(* indices[0] == 0 -> 'x', == 1 -> 'y', == 2 -> 'z', else: raise ValueError('Wrong index') *)
+Definition coord_name (i : nat) : res string :=
+  match i with 0 => Ok "x" | 1 => Ok "y" | 2 => Ok "z" | _ => Err EValue end.
+
+(* arms `isinstance(expr, (ScalarFunction, VectorFunction))`, `isinstance(expr, (PlusInterfaceOperator,
+   MinusInterfaceOperator))` (the code is handed on to the argument) and `isinstance(expr, Indexed)`
+   (base a Mapping: coordinate name, '_plus' when base.is_plus; otherwise '{base}_{i}') *)
+Fixpoint atom_name (a : fatom) (code : option string) : res string :=
   match a with
-  | FScal n => with_code n code
-  | FComp n i => with_code (n ++ "_" ++ dec i) code
+  | FScal n => Ok (with_code n code)
+  | FSide _ a' => atom_name a' code
+  | FMap m i => rmap (fun c => with_code (if map_is_plus m then c ++ "_plus" else c) code) (coord_name i)
+  | FComp n i => Ok (with_code (n ++ "_" ++ dec i) code)
+  end.
+
+(* the names of the geometry atoms *)
+Definition gatom_name (g : gatom) : string :=
+  match g with
+  | GMap m => map_name m                                        (* Symbol(expr.name) *)
+  | GWvol m => "wvol_" ++ map_name (map_minus m)                (* 'wvol_{mapping}' *)
+  | GDet jac m => "det_" ++ (if jac then "Jacobian(" ++ map_name m ++ ")" else map_name m)   (* 'det_{}'.format(str(expr.args[0])) *)
   end.
 
 Inductive kind := KP | KL.
@@ -99,7 +183,7 @@ Definition kind_eqb (a b : kind) : bool := match a, b with KP, KP | KL, KL => tr
    forgets the incoming code, and recurses on atom; the logical arm is symmetric.  [cur = Some k] means
    "inside get_atom_*: operators of kind k are being stripped"; an operator of the other kind starts the
    other arm, which overwrites the code. *)
-Fixpoint chain_eval (cur : option kind) (ops : list dop) (a : fatom) (code : option string) : string :=
+Fixpoint chain_eval (cur : option kind) (ops : list dop) (a : fatom) (code : option string) : res string :=
   match ops with
   | [] => atom_name a code
   | o :: r =>
@@ -110,22 +194,34 @@ Fixpoint chain_eval (cur : option kind) (ops : list dop) (a : fatom) (code : opt
              (Some (match k with KP => code_phys (phys_index ops) | KL => code_log (log_index ops) end))
   end.
 
-Definition chain_name (ops : list dop) (a : fatom) : string := chain_eval None ops a None.
+Definition chain_name (ops : list dop) (a : fatom) : res string := chain_eval None ops a None.
 
-(* SymbolicExpr.eval at code=None (the code is only ever set inside the derivative arms) *)
-Fixpoint symbolic (e : expr) : expr :=
+(* SymbolicExpr.eval at code=None (the code is only ever set inside the derivative arms), arm by arm, with the
+   exponent of a power handled as in the code before 1e5436c (passed through); [symbolic_g true] below is the
+   current code *)
+Fixpoint symbolic (e : expr) : res expr :=
   match e with
-  | Add l => Add (map symbolic l)              (* Add of [eval(a) for a in expr.args] *)
-  | Mul l => Mul (map symbolic l)
-  | Pow b x => Pow (symbolic b) x              (* Pow(eval(b), e): the exponent is passed through *)
-  | Num s => Num s                             (* _coeffs_registery *)
-  | Tup l => Tup (map symbolic l)              (* list / tuple / Tuple -> Tuple *)
-  | Seq l => Tup (map symbolic l)
-  | Mat imm rows => Mat imm (map (map symbolic) rows)   (* type(expr)(lines) *)
-  | Vec n => Sym n                             (* VectorFunction -> Symbol(name) *)
-  | Chain ops a => Sym (chain_name ops a)      (* ScalarFunction / Indexed / derivative arms *)
-  | Sym s => Sym s                             (* Constant, Symbol *)
-  | Fn f l => Fn f (map symbolic l)            (* type(expr) of [eval(a) for a in expr.args] *)
+  | Add l => rmap Add (mapM symbolic l)        (* Add of [eval(a) for a in expr.args] *)
+  | Mul l => rmap Mul (mapM symbolic l)
+  | Pow b x => rmap (fun b' => Pow b' x) (symbolic b)   (* Pow(eval(b), e): the exponent is passed through *)
+  | Num s => Ok (Num s)                        (* _coeffs_registery *)
+  | Tup l => rmap Tup (mapM symbolic l)        (* list / tuple / Tuple -> Tuple *)
+  | Seq l => rmap Tup (mapM symbolic l)
+  | Mat imm rows => rmap (Mat imm) (mapM (mapM symbolic) rows)   (* type(expr)(lines) *)
+  | Vec n => Ok (Sym n)                        (* VectorFunction -> Symbol(name) *)
+  | Side _ x => symbolic x                     (* Plus/MinusInterfaceOperator: eval(expr.args[0]) *)
+  | PIdx b i => Ok (Sym (b ++ "_" ++ i))       (* Indexed, base not a Mapping: '{base}_{i}' *)
+  | Chain ops a => rmap Sym (chain_name ops a) (* ScalarFunction / Plus/Minus / Indexed / derivative arms *)
+  | Geo (GMap m) => Ok (Sym (gatom_name (GMap m)))       (* Mapping -> Symbol(name) *)
+  | Sym s => Ok (Sym s)                        (* Constant, Symbol *)
+  | IBase s => Ok (IBase s)                    (* IndexedBase *)
+  | IdxS s => Ok (IdxS s)                      (* Idx *)
+  | Fn f l => rmap (Fn f) (mapM symbolic l)    (* type(expr) of [eval(a) for a in expr.args] *)
+  | ImI => Ok ImI                              (* ImaginaryUnit *)
+  | Geo (GWvol m) => Ok (Sym (gatom_name (GWvol m)))     (* SymbolicWeightedVolume *)
+  | Geo (GDet j m) => Ok (Sym (gatom_name (GDet j m)))   (* SymbolicDeterminant *)
+  | PB _ _ x => symbolic x                     (* PullBack: eval(expr.expr) *)
+  | Opaque _ => Err ENotImpl                   (* raise NotImplementedError('Cannot translate to Sympy') *)
   end.
 
 (* ------------------------------------------------------------------ find / sort *)
@@ -138,7 +234,7 @@ Fixpoint find_pd (e : expr) : list chain :=
   | Tup l => flat_map find_pd l
   | Seq l => flat_map find_pd l
   | Chain (o :: r) a => [(o :: r, a)]          (* a dx/dy/dz/dx1/dx2/dx3 node *)
-  | _ => []                                    (* everything else: Matrix, Function, atoms *)
+  | _ => []                                    (* everything else: Matrix, Function, interface operators, atoms *)
   end.
 
 (* get_number_derivatives: number of leading PHYSICAL operators *)
@@ -175,15 +271,23 @@ Definition index_atom_log (e : expr) (q : query) : list idx3 :=
 (* expr.atoms(ScalarFunction) + expr.atoms(VectorFunction) + expr.atoms(IndexedVectorFunction):
    every function atom occurring anywhere (preorder traversal of all args); order and repetitions
    are irrelevant for the maximum taken afterwards *)
+Fixpoint fatoms (a : fatom) : list query :=
+  match a with
+  | FScal n => [QAtom (FScal n)]
+  | FComp n i => [QAtom (FComp n i); QVec n]
+  | FSide _ a' => fatoms a'                    (* .atoms() looks through the interface operator *)
+  | FMap _ _ => []                             (* M[i] is a plain sympy Indexed over a Mapping *)
+  end.
 Fixpoint atoms_of (e : expr) : list query :=
   match e with
-  | Num _ | Sym _ => []
   | Vec n => [QVec n]
-  | Chain _ (FScal n) => [QAtom (FScal n)]
-  | Chain _ (FComp n i) => [QAtom (FComp n i); QVec n]
+  | Chain _ a => fatoms a
   | Add l | Mul l | Fn _ l | Tup l | Seq l => flat_map atoms_of l
   | Pow b x => atoms_of b ++ atoms_of x
   | Mat _ rows => flat_map (flat_map atoms_of) rows
+  | Side _ x => atoms_of x
+  | PB f vec _ => [if vec then QVec f else QAtom (FScal f)]   (* args = (f,); .expr is not an argument *)
+  | _ => []
   end.
 
 (* d = {..:0};  for dd in indices: for k,v in dd.items(): if v > d[k]: d[k] = v *)
@@ -213,20 +317,43 @@ Definition get_max_log (e : expr) (q : option query) : option idx3 :=
      ea  find_partial_derivatives also enters Pow exponents, Matrix entries and the arguments of any other
          expression (elementary functions, ...)
      pe  SymbolicExpr also translates the exponent of a Pow
-     vq  get_index_*_derivatives_atom accepts a VectorFunction F: the chains over its components *)
-Fixpoint symbolic_g (pe : bool) (e : expr) : expr :=
+     vq  get_index_*_derivatives_atom accepts a VectorFunction F: the chains over its components
+     sq  get_index_*_derivatives_atom looks through the interface operators around the innermost argument of a
+         chain: dx(minus(u)) is a chain of u (proposed, fix-sided-atom-orders) *)
+Fixpoint symbolic_g (pe : bool) (e : expr) : res expr :=
   match e with
-  | Add l => Add (map (symbolic_g pe) l)
-  | Mul l => Mul (map (symbolic_g pe) l)
-  | Pow b x => Pow (symbolic_g pe b) (if pe then symbolic_g pe x else x)
-  | Num s => Num s
-  | Tup l => Tup (map (symbolic_g pe) l)
-  | Seq l => Tup (map (symbolic_g pe) l)
-  | Mat imm rows => Mat imm (map (map (symbolic_g pe)) rows)
-  | Vec n => Sym n
-  | Chain ops a => Sym (chain_name ops a)
-  | Sym s => Sym s
-  | Fn f l => Fn f (map (symbolic_g pe) l)
+  | Add l => rmap Add (mapM (symbolic_g pe) l)
+  | Mul l => rmap Mul (mapM (symbolic_g pe) l)
+  | Pow b x => rbind (symbolic_g pe b) (fun b' =>          (* Pow(eval(b), eval(e)): base first *)
+               if pe then rmap (Pow b') (symbolic_g pe x) else Ok (Pow b' x))
+  | Num s => Ok (Num s)
+  | Tup l => rmap Tup (mapM (symbolic_g pe) l)
+  | Seq l => rmap Tup (mapM (symbolic_g pe) l)
+  | Mat imm rows => rmap (Mat imm) (mapM (mapM (symbolic_g pe)) rows)
+  | Vec n => Ok (Sym n)
+  | Side _ x => symbolic_g pe x
+  | PIdx b i => Ok (Sym (b ++ "_" ++ i))
+  | Chain ops a => rmap Sym (chain_name ops a)
+  | Geo (GMap m) => Ok (Sym (gatom_name (GMap m)))
+  | Sym s => Ok (Sym s)
+  | IBase s => Ok (IBase s)
+  | IdxS s => Ok (IdxS s)
+  | Fn f l => rmap (Fn f) (mapM (symbolic_g pe) l)
+  | ImI => Ok ImI
+  | Geo (GWvol m) => Ok (Sym (gatom_name (GWvol m)))
+  | Geo (GDet j m) => Ok (Sym (gatom_name (GDet j m)))
+  | PB _ _ x => symbolic_g pe x
+  | Opaque _ => Err ENotImpl
+  end.
+
+(* SymbolicExpr / SymbolicExpr.eval called with n positional arguments:  `if not _args: return` (None: the object stays unevaluated),
+   `if not len(_args) == 1: raise ValueError('Expecting one argument')` *)
+Inductive call_res := Unevaluated | Evaluated (r : res expr).
+Definition symbolic_call (pe : bool) (args : list expr) : call_res :=
+  match args with
+  | [] => Unevaluated
+  | [e] => Evaluated (symbolic_g pe e)
+  | _ => Evaluated (Err EValue)
   end.
 
 Fixpoint find_pd_g (ea : bool) (e : expr) : list chain :=
@@ -239,38 +366,60 @@ Fixpoint find_pd_g (ea : bool) (e : expr) : list chain :=
   | Mat _ rows => if ea then flat_map (flat_map (find_pd_g ea)) rows else []
   | Chain (o :: r) a => [(o :: r, a)]
   | Fn _ l => if ea then flat_map (find_pd_g ea) l else []
-  | _ => []
+  | Side _ x => if ea then find_pd_g ea x else []    (* any other Basic: find_partial_derivatives(expr.args) *)
+  | _ => []       (* PullBack: args = (f,), .expr is not visited; atoms; a non-Basic python object: return () *)
   end.
 
-Definition match_q_g (vq : bool) (rest : list dop) (a : fatom) (q : query) : bool :=
+(* while isinstance(a, (minus, plus)): a = a.args[0] *)
+Fixpoint unside (a : fatom) : fatom := match a with FSide _ a' => unside a' | _ => a end.
+
+(* _is_atom_of(a, atom) *)
+Definition match_q_g (vq sq : bool) (rest : list dop) (a : fatom) (q : query) : bool :=
+  let a' := if sq then unside a else a in
   match q with
-  | QAtom f => match rest with [] => fatom_eqb a f | _ => false end
-  | QVec n => vq && match rest, a with [], FComp m _ => String.eqb m n | _, _ => false end
+  | QAtom f => match rest with [] => fatom_eqb a f || fatom_eqb a' f | _ => false end
+  | QVec n => vq && match rest, a' with [], FComp m _ => String.eqb m n | _, _ => false end
   end.
 
-Definition index_atom_phys_g (ea vq : bool) (e : expr) (q : query) : list idx3 :=
-  flat_map (fun c : chain => if match_q_g vq (strip_phys (fst c)) (snd c) q then [phys_index (fst c)] else [])
+Definition index_atom_phys_g (ea vq sq : bool) (e : expr) (q : query) : list idx3 :=
+  flat_map (fun c : chain => if match_q_g vq sq (strip_phys (fst c)) (snd c) q then [phys_index (fst c)] else [])
            (sort_pd (find_pd_g ea e)).
-Definition index_atom_log_g (ea vq : bool) (e : expr) (q : query) : list idx3 :=
-  flat_map (fun c : chain => if match_q_g vq (strip_log (fst c)) (snd c) q then [log_index (fst c)] else [])
+Definition index_atom_log_g (ea vq sq : bool) (e : expr) (q : query) : list idx3 :=
+  flat_map (fun c : chain => if match_q_g vq sq (strip_log (fst c)) (snd c) q then [log_index (fst c)] else [])
            (sort_pd (find_pd_g ea e)).
 
-Definition get_max_phys_g (ea vq : bool) (e : expr) (q : option query) : option idx3 :=
+Definition get_max_phys_g (ea vq sq : bool) (e : expr) (q : option query) : option idx3 :=
   match q with
-  | None => if is_pyseq e then None else Some (max3 (flat_map (index_atom_phys_g ea vq e) (atoms_of e)))
-  | Some f => Some (max3 (index_atom_phys_g ea vq e f))
+  | None => if is_pyseq e then None else Some (max3 (flat_map (index_atom_phys_g ea vq sq e) (atoms_of e)))
+  | Some f => Some (max3 (index_atom_phys_g ea vq sq e f))
   end.
-Definition get_max_log_g (ea vq : bool) (e : expr) (q : option query) : option idx3 :=
+Definition get_max_log_g (ea vq sq : bool) (e : expr) (q : option query) : option idx3 :=
   match q with
-  | None => if is_pyseq e then None else Some (max3 (flat_map (index_atom_log_g ea vq e) (atoms_of e)))
-  | Some f => Some (max3 (index_atom_log_g ea vq e f))
+  | None => if is_pyseq e then None else Some (max3 (flat_map (index_atom_log_g ea vq sq e) (atoms_of e)))
+  | Some f => Some (max3 (index_atom_log_g ea vq sq e f))
   end.
 
 (* ------------------------------------------------------------------ comparator glue for the case files *)
 Definition show_op (o : dop) : string :=
   match o with Dx => "dx" | Dy => "dy" | Dz => "dz" | D1 => "dx1" | D2 => "dx2" | D3 => "dx3" end.
-Definition show_atom (a : fatom) : string :=
-  match a with FScal n => "s:" ++ n | FComp n i => "c:" ++ n ++ "[" ++ dec i ++ "]" end.
+Definition show_mapping (m : mapping) : string :=
+  match m with
+  | MPlain n s => n ++ (match s with SNone => "" | SMinus => "-" | SPlus => "+" end)
+  | MIface a b => a ++ "|" ++ b
+  end.
+Fixpoint show_atom (a : fatom) : string :=
+  match a with
+  | FScal n => "s:" ++ n
+  | FComp n i => "c:" ++ n ++ "[" ++ dec i ++ "]"
+  | FSide p a' => (if p then "plus:" else "minus:") ++ show_atom a'
+  | FMap m i => "m:" ++ show_mapping m ++ "[" ++ dec i ++ "]"
+  end.
+Definition show_gatom (g : gatom) : string :=
+  match g with
+  | GMap m => "map:" ++ show_mapping m
+  | GWvol m => "wvol:" ++ show_mapping m
+  | GDet j m => (if j then "detJ:" else "det:") ++ show_mapping m
+  end.
 Definition show_chain (c : chain) : string :=
   String.concat "." (map show_op (fst c)) ++ "@" ++ show_atom (snd c).
 
@@ -288,6 +437,14 @@ Fixpoint show (e : expr) : string :=
   | Seq l => "L(" ++ String.concat "," (map show l) ++ ")"
   | Mat imm rows => (if imm then "IX[" else "MX[") ++
                     String.concat ";" (map (fun r => String.concat "," (map show r)) rows) ++ "]"
+  | Side p x => (if p then "PLUS(" else "MINUS(") ++ show x ++ ")"
+  | Geo g => "G<" ++ show_gatom g ++ ">"
+  | IBase n => "IB<" ++ n ++ ">"
+  | IdxS n => "IDX<" ++ n ++ ">"
+  | ImI => "I"
+  | PIdx b i => "PI<" ++ b ++ "[" ++ i ++ "]>"
+  | PB f vec x => "PB:" ++ f ++ (if vec then "*" else "") ++ "(" ++ show x ++ ")"
+  | Opaque b => if b then "OPAQUE" else "PYOBJ"
   end.
 
 Fixpoint insert_by (x : expr) (l : list expr) : list expr :=
@@ -307,9 +464,21 @@ Fixpoint canon_ac (e : expr) : expr :=
   | Tup l => Tup (map canon_ac l)
   | Seq l => Seq (map canon_ac l)
   | Mat imm rows => Mat imm (map (map canon_ac) rows)
+  | Side p x => Side p (canon_ac x)
+  | PB f vec x => PB f vec (canon_ac x)
   | _ => e
   end.
 Definition ac_eqb (a b : expr) : bool := String.eqb (show (canon_ac a)) (show (canon_ac b)).
+
+(* comparison of an outcome of SymbolicExpr with the model's: the same exception, or the same tree modulo the
+   argument order of Add / Mul *)
+Definition errk_eqb (a b : errk) : bool := match a, b with EValue, EValue | ENotImpl, ENotImpl => true | _, _ => false end.
+Definition res_ac_eqb (a b : res expr) : bool :=
+  match a, b with Ok x, Ok y => ac_eqb x y | Err j, Err k => errk_eqb j k | _, _ => false end.
+Definition call_res_beq (a b : call_res) : bool :=
+  match a, b with Unevaluated, Unevaluated => true | Evaluated x, Evaluated y => res_ac_eqb x y | _, _ => false end.
+Definition res_str_eqb (a b : res string) : bool :=
+  match a, b with Ok x, Ok y => String.eqb x y | Err j, Err k => errk_eqb j k | _, _ => false end.
 
 Fixpoint list_beq {A} (f : A -> A -> bool) (l1 l2 : list A) : bool :=
   match l1, l2 with
